@@ -128,14 +128,29 @@ theorem present_count (m : M6o) (a : ASt) (ks : List Nat) (hK : Know m a) (hnd :
   obtain ⟨d, hd⟩ := this
   exact (hks k).2 (inSet_of_present a k d hd)
 
-theorem ret_resetAll (m : M6o) (a : ASt) (f : Nat → Bool) (res : Res) (hK : Know m a)
-    (hout : SpecOut a (specStep a f .resetAll) .resetAll res) :
-    ∃ m', m.ret .resetAll res = some m' ∧ Know m' (specStep a f .resetAll) ∧ m'.pending = m.pending := by
+theorem specMatch_nil (a : ASt) (k : Nat) : specMatch a [] k = true := by simp [specMatch, condsMatch]
+
+theorem chk_counts (a : ASt) (cs : List Cond) (ks : List Nat) :
+    (if cs.isEmpty then (ks.filter (specMatch a cs)).length == ks.length
+     else decide ((ks.filter (specMatch a cs)).length ≤ ks.length)) = true := by
+  split
+  · rename_i he
+    have : cs = [] := by simpa using he
+    subst this
+    have : ks.filter (specMatch a []) = ks := List.filter_eq_self.2 (fun k _ => specMatch_nil a k)
+    simp [this]
+  · simp [List.length_filter_le]
+
+theorem ret_resetAll (m : M6o) (a : ASt) (f : Nat → Bool) (cs : List Cond) (res : Res) (hK : Know m a) (hI : SpecInv a)
+    (hout : SpecOut a (specStep a f (.resetAll cs)) (.resetAll cs) res) :
+    ∃ m', m.ret (.resetAll cs) res = some m' ∧ Know m' (specStep a f (.resetAll cs)) ∧ m'.pending = m.pending := by
   simp only [SpecOut] at hout
   obtain ⟨ks, hnd, hks, rfl⟩ := hout
   have hc := present_count m a ks hK hnd hks
-  have hc' : (ks.length == ks.length && decide (((dedup m.known).filter fun k => m.st k == .present).length ≤ ks.length)) = true := by
-    simp [hc]
+  have hc' : ((if cs.isEmpty then (ks.filter (specMatch a cs)).length == ks.length
+      else decide ((ks.filter (specMatch a cs)).length ≤ ks.length)) &&
+      decide (((dedup m.known).filter fun k => m.st k == .present).length ≤ ks.length)) = true := by
+    rw [chk_counts a cs ks]; simp [hc]
   simp only [M6o.ret, hc', if_true]
   refine ⟨_, rfl, ?_, rfl⟩
   refine ⟨hK.delay, hK.epoch, hK.ctx, ?_, ?_, hK.live, hK.rkey⟩
@@ -143,11 +158,18 @@ theorem ret_resetAll (m : M6o) (a : ASt) (f : Nat → Bool) (res : Res) (hK : Kn
     simp only [specStep]
     have hk := hK.st k
     cases hs : m.st k with
-    | absent => rw [hs] at hk; simp only [KnowK] at hk ⊢; simp [renSt, ASt.inSet, hk, KSt.inSet]
+    | absent =>
+      rw [hs] at hk; simp only [KnowK] at hk ⊢
+      split
+      · simp [renSt, ASt.inSet, hk, KSt.inSet]
+      · exact hk
     | present =>
       rw [hs] at hk
       obtain ⟨d, hd⟩ := hk
-      exact ⟨a.nctor k + 1, by simp [renSt, inSet_of_present a k d hd]⟩
+      simp only [KnowK]
+      split
+      · exact ⟨a.nctor k + 1, by simp [renSt, inSet_of_present a k d hd]⟩
+      · exact ⟨d, hd⟩
     | unknown e => trivial
     | any => trivial
   · intro k n hn
@@ -157,28 +179,42 @@ theorem ret_resetAll (m : M6o) (a : ASt) (f : Nat → Bool) (res : Res) (hK : Kn
     | absent =>
       rw [hs] at hk hn; simp only [KnowK] at hk
       simp only [] at hn
-      simp [renCtor, ASt.inSet, hk, KSt.inSet, hK.cnt k n hn]
+      split
+      · simp [renCtor, ASt.inSet, hk, KSt.inSet, hK.cnt k n hn]
+      · exact hK.cnt k n hn
     | present =>
       rw [hs] at hk hn
       obtain ⟨d, hd⟩ := hk
       simp only [] at hn
+      have hin := inSet_of_present a k d hd
       cases hcn : m.cnt k with
-      | none => simp [hcn] at hn
-      | some n0 => simp [hcn] at hn; simp [renCtor, inSet_of_present a k d hd, hK.cnt k n0 hcn, hn]
+      | none => simp [hcn, cntReset] at hn
+      | some n0 =>
+        simp only [hcn, cntReset, Option.map_some, Option.some.injEq] at hn
+        have hn0 := hK.cnt k n0 hcn
+        have hdat := hI k hin
+        have hsm : specMatch a cs k = condsMatch cs k n0 := by simp [specMatch, hin, hdat, hn0]
+        rw [hsm]
+        cases hcm : condsMatch cs k n0 with
+        | true => simp [hcm] at hn; simp [renCtor, hin, hn0, hn]
+        | false => simp [hcm] at hn; simp [hn0, hn]
     | unknown e => rw [hs] at hn; simp at hn
     | any => rw [hs] at hn; simp at hn
 
-theorem ret_restartAll (m : M6o) (a : ASt) (f : Nat → Bool) (res : Res) (hK : Know m a)
-    (hout : SpecOut a (specStep a f .restartAll) .restartAll res) :
-    ∃ m', m.ret .restartAll res = some m' ∧ Know m' (specStep a f .restartAll) ∧ m'.pending = m.pending := by
+theorem ret_restartAll (m : M6o) (a : ASt) (f : Nat → Bool) (cs : List Cond) (res : Res) (hK : Know m a)
+    (hout : SpecOut a (specStep a f (.restartAll cs)) (.restartAll cs) res) :
+    ∃ m', m.ret (.restartAll cs) res = some m' ∧ Know m' (specStep a f (.restartAll cs)) ∧ m'.pending = m.pending := by
   simp only [SpecOut] at hout
   obtain ⟨ks, hnd, hks, rfl⟩ := hout
   have hc := present_count m a ks hK hnd hks
+  have hcc := chk_counts a cs ks
   simp only [M6o.ret, specStep]
   cases hh : m.hasCtx with
   | none => exact ⟨m, by simp [hc, hh], hK, rfl⟩
   | some c =>
     have := hK.ctx c hh
-    exact ⟨m, by simp [hc, this, hh], hK, rfl⟩
+    cases c with
+    | true => exact ⟨m, by simp only [this, if_true, hcc, hc, decide_true, Bool.and_self, hh], hK, rfl⟩
+    | false => exact ⟨m, by simp [hc, this, hh], hK, rfl⟩
 
 end UtilModel.Keyed
